@@ -167,6 +167,32 @@ Definition aux (fam_ : nat -> list bv) (k:Z) : Z :=
 Definition with_mins (sg:sym -> Z) : sym -> Z :=
   fun s => match s with SMv (SIdx k) => aux (vMin n D) k | SMf (SIdx k) => aux (fMin n D) k | _ => sg s end.
 
+Definition base_csp : list icon := concat (map block (seq 0 m)) ++ map (fun c => IGE (ISym (SEta (kz c))) (IInt 0)) D.
+Lemma base_nonneg sg : csp_sat sg base_csp = true -> forall c, In c D -> (0 <= sg (SEta (kz c)))%Z.
+Proof. unfold base_csp. rewrite csp_sat_app. intros H c Hc. apply andb_true_iff in H as [_ H]. unfold csp_sat in H.
+  rewrite forallb_map in H. eapply forallb_forall in H; [|exact Hc]. cbn [ceval ieval] in H. apply Z.leb_le in H. exact H. Qed.
+(* the witness of solvability: any assignment of the impacts, with the auxiliary variables set to the minima *)
+Lemma base_with_mins : (forall i, i < m -> vMin n D i <> []) -> csp_b n D eta = true ->
+  forall sg, eta_assignment D eta sg -> csp_sat (with_mins sg) base_csp = true.
+Proof. intros Hver Hc sg Hsg. unfold base_csp.
+  assert (Hsg': eta_assignment D eta (with_mins sg)) by (intros i Hi; apply Hsg; exact Hi).
+  assert (Hge: csp_sat (with_mins sg) (map (fun c => IGE (ISym (SEta (kz c))) (IInt 0)) D) = true).
+  { unfold csp_sat. rewrite forallb_map. apply forallb_forall. intros c Hcin.
+    apply (In_nth _ _ d0) in Hcin as [i [Hi <-]]. cbn [ceval ieval]. rewrite (Hsg' i Hi). apply Z.leb_le. lia. }
+  rewrite csp_sat_app, csp_sat_concat, Hge, andb_true_r. unfold csp_b in Hc.
+  apply forallb_forall. intros i Hi. eapply forallb_forall in Hc; [|exact Hi]. apply in_seq in Hi.
+  apply (block_sat (with_mins sg) i ltac:(lia) Hsg' (Hver i ltac:(lia))). split; [exact Hc|].
+  intros Hf. cbn [with_mins]. unfold aux. rewrite (pos_keyi i) by lia.
+  split.
+  - destruct (minl (map (fun v => sumsel v eta) (vMin n D i))) as [x|] eqn:E; [exists x; auto|].
+    apply minl_none in E. apply map_eq_nil in E. exfalso. apply (Hver i); [lia|exact E].
+  - destruct (minl (map (fun v => sumsel v eta) (fMin n D i))) as [x|] eqn:E; [exists x; auto|].
+    apply minl_none in E. apply map_eq_nil in E. contradiction. Qed.
+Lemma base_sat_csp_b : (forall i, i < m -> vMin n D i <> []) -> forall sg, eta_assignment D eta sg -> csp_sat sg base_csp = true -> csp_b n D eta = true.
+Proof. intros Hver sg Hsg Hsat. unfold base_csp in Hsat. rewrite csp_sat_app, csp_sat_concat in Hsat. apply andb_true_iff in Hsat as [Hsat _].
+  unfold csp_b. apply forallb_forall. intros i Hi. eapply forallb_forall in Hsat; [|exact Hi]. apply in_seq in Hi.
+  apply (block_sat sg i ltac:(lia) Hsg (Hver i ltac:(lia))) in Hsat. tauto. Qed.
+
 (* translate(): for impacts eta the generated base CSP has a solution (in the auxiliary minimum variables) exactly when the
    model's csp_b holds - on a base each of whose conditionals is verifiable, as on every consistent base *)
 Theorem tie_base_csp : (forall i, i < m -> vMin n D i <> []) -> exists csp,
